@@ -19,7 +19,7 @@ var lengthTargets = []int{9, 10, 11, 98, 99, 100, 101, 998, 999, 1000, 1001, 999
 
 func main() {
 	c := vk.Init("C01")
-	c.Rule("case i: PRNG(seed,i) draws template+population+values as in C17 (arbitrary or 8/9/35/10 framing tags, header/body/trailer empty or not); one String field is then padded so that BodyLength lands on a drawn target among {9,10,11,98..101,998..1001,9999..10001} and one byte nudged so that the checksum hits a drawn residue; plus every tests/fix44 type; every message object is then updated in place through its setters / AddEntry and serialized again (twice), and the slices handed out by the earlier ToBytes calls are re-read afterwards: they must not have been written to. Oracle: fixref.CheckFrame on the emitted bytes alone. distinct = hash(shape, wire bytes); non-trivial = at least one populated non-framing field")
+	c.Rule("case i: PRNG(seed,i) draws template+population+values as in C17 (arbitrary or 8/9/35/10 framing tags, header/body/trailer empty or not); one String field is then padded so that BodyLength lands on a drawn target among {9,10,11,98..101,998..1001,9999..10001} and one byte nudged so that the checksum hits a drawn residue; plus every tests/fix44 type; every message object is then updated in place through its setters / AddEntry and serialized again (twice), and the slices handed out by the earlier ToBytes calls are re-read afterwards: they must not have been written to; every third message then gets an entry with nothing populated added to its first group and is serialized once more. Oracle: fixref.CheckFrame on the emitted bytes alone. distinct = hash(shape, wire bytes); non-trivial = at least one populated non-framing field")
 	c.Assume("fixref.CheckFrame (written from the FIX definition of BodyLength/CheckSum) is the trusted base")
 	n := c.Pick(20000, 1000000)
 	nf44 := c.Pick(200, 2000)
@@ -197,6 +197,13 @@ func main() {
 			judge("template+updated-in-place", i, t.FT, t.Shape(), wire, err, pan, "after in-place updates: "+strings.Join(d2, " | "), true, "reserialized")
 			c.Count("reserializations_after_in_place_update", 1)
 		}
+		// an entry in which nothing is populated, added to the first repeating group of the message (header or body)
+		if g := firstGroup(m); g != nil && i%3 == 0 {
+			g.AddEntry(g.AsTemplate())
+			wire, err, pan = gen.Serialize(m)
+			judge("template+entry-without-populated-fields", i, t.FT, t.Shape(), wire, err, pan, "after adding an entry with nothing populated to group "+g.NoTag(), true, "reserialized")
+			c.Count("serializations_with_an_entry_that_has_nothing_populated", 1)
+		}
 		if c.WantSample() && i%1000 == 3 {
 			c.Sample(map[string]interface{}{"index": i, "population": vk.Trunc(mp.Describe(), 300), "wire": vk.Trunc(fixref.Pretty(wire), 300)})
 		}
@@ -235,6 +242,34 @@ func main() {
 		judge("length-sweep", L, fixref.Std, "sweep", wire, err, pan, fmt.Sprintf("58=y*%d", L), L > 0, "sweep")
 	}
 	c.Finish()
+}
+
+// firstGroup finds the first repeating group of a message (header first, then body; through components and entries).
+func firstGroup(m *fix.Message) *fix.Group {
+	var walk func(items fix.Items) *fix.Group
+	walk = func(items fix.Items) *fix.Group {
+		for _, it := range items {
+			switch el := it.(type) {
+			case *fix.Group:
+				if el != nil {
+					return el
+				}
+			case *fix.Component:
+				if el != nil {
+					if g := walk(el.Items()); g != nil {
+						return g
+					}
+				}
+			}
+		}
+		return nil
+	}
+	if h := m.Header(); h != nil {
+		if g := walk(h.Items()); g != nil {
+			return g
+		}
+	}
+	return walk(m.Body())
 }
 
 func measuredLen(ft fixref.FramingTags, wire []byte) int {
